@@ -108,6 +108,10 @@ func build(fields []modbus.Field, fc uint8, f spec.Framing, fluent bool) ([]modb
 			addFluent(b, fd, fd.ServerAddress == fields[0].ServerAddress && fd.UnitID == fields[0].UnitID)
 		}
 	} else {
+		if len(fields)%3 == 2 {
+			// a builder with defaults of its own: complete definitions handed to AddAll (unit id 0 and all) are not subject to them
+			b = modbus.NewRequestBuilder("default-target:502", 7)
+		}
 		b.AddAll(fields)
 	}
 	if len(fields)%2 == 1 {
